@@ -35,7 +35,10 @@ def extract(ctx):
 TRUSTED = [
     "Lean 4.33 kernel; axioms propext, Classical.choice, Quot.sound only (audited by #print axioms)",
     "cryptographic hardness (Ed25519 unforgeability, ChaCha20-Poly1305 integrity, X25519/HKDF collision freedom) enters "
-    "only as the hypothesis records IdealSig / IdealAEAD / IdealDH / FreshKeys (satisfiable: instance Sym proves them)",
+    "only as the hypothesis records IdealSig / IdealAEAD / IdealDH / FreshKeys and their symbolic-strength forms StrongSig / "
+    "StrongAEAD (satisfiable: instance Sym proves them all); the attacker of C02_session_origin is restricted by the Dolev-Yao "
+    "rule for signatures as a condition on runs (Obeys) - proved as a derivation-closure theorem for terms "
+    "(C02_dy_signature_rule), assumed to carry over to byte strings (no term->bytes encoding is modelled)",
     "hand-written model lean/HapModel/PairVerify.lean of handle_pair_verify/_pair_verify_one/_pair_verify_two, State "
     "pairing maps and the cipher installation in _process_response, tied by this differential run (same request bytes; "
     "crypto/uuid answers supplied as tables by the reference controller)",
@@ -295,6 +298,7 @@ class Runner:
         self.impl: List[Dict[str, Any]] = []
         self.fails: List[tuple] = []
         self.outcomes: List[str] = []
+        self.signlog: List[tuple] = []  # every signature a key holder issued: (raw public key, message)
 
     def _rb(self, n: int) -> bytes:
         return bytes(self.krng.randrange(256) for _ in range(n))
@@ -462,6 +466,7 @@ class Runner:
         if success:
             r.session = rc.Session(ex.shared) if ex.shared else None
             r.session_key = ex.shared
+            self.origin_oracle(c, cur, getattr(src, "m3_ident", None))
             self.fail(
                 "C02:verbatim-replay-upgraded",
                 f"the recorded M1 and M3 request bodies of a completed exchange (connection {getattr(src, 'conn', '?')}), re-sent "
@@ -516,6 +521,7 @@ class Runner:
             sig = self._rb(64)
         else:
             sig = self.sk[key].sign(material)
+            self.signlog.append((self.pub(key), material))
         mal = op.get("mal", "none")
         inner = [(rc.T_ID, ident), (rc.T_PROOF, sig)]
         if mal == "no_id":
@@ -590,6 +596,7 @@ class Runner:
             # a controller that is told "verified" switches to the session keys of this exchange
             r.session = rc.Session(ex.shared)
             r.session_key = ex.shared
+            self.origin_oracle(c, cur, None if "no_id" == mal else ident)
         if expected:
             u = parse_uuid(ident)
             if not success:
@@ -599,6 +606,7 @@ class Runner:
             r.cur = None
             if success:
                 cur.m3_body = body  # what an eavesdropper records of a completed exchange
+                cur.m3_ident = ident
                 cur.verified_uuid = u
         elif success:
             self.fail(
@@ -607,6 +615,20 @@ class Runner:
             )
         self.outcomes.append("V3-" + ("upgrade" if success else _cls(got)) + ("" if expected == success else "-UNEXPECTED"))
         _ = before_verified
+
+    def origin_oracle(self, c: int, cur: Optional[rc.Exchange], ident: Optional[bytes]):
+        """Session => the holder of the registered key signed THIS exchange (the statement of C02_session_origin on the
+        real code): only the harness holds the controllers' secret keys and it logs every signature it makes."""
+        u = parse_uuid(ident) if ident is not None else None
+        e = self.ref_paired.get(u) if u is not None else None
+        if cur is None or e is None:
+            return  # no exchange / nobody registered: reported by the iff oracle
+        if (e["key"], cur.cepk + ident + cur.sepk) not in self.signlog:
+            self.fail(
+                "C02:session-without-holder-signature",
+                f"connection {c} was upgraded as controller {u}, but the holder of the key registered for it never signed "
+                f"cepk||id||sepk of this exchange (the proof was not bound to both ephemeral keys of the exchange by the key holder)",
+            )
 
     def ref_iff(self, cur: Optional[rc.Exchange], body: bytes):
         """Right-hand side of C02, computed with the reference's own knowledge and real primitives."""
